@@ -73,7 +73,10 @@ pub fn gen_c10(seed: u64, thorough: bool) -> Plan {
         config,
         knobs: KnobsPlan::simple(),
         flows: vec![],
-        extra: serde_json::json!({ "kind": kind, "delta": delta, "type": type_byte, "d0": d0, "d": d, "sub_seed": g.next() }),
+        // replay histories: how the first presentation and the copies are cut into segments (0 = one segment; the cut
+        // never falls inside salt + fixed-length header, the one boundary Shadowsocks 2022 requires in the first read)
+        extra: serde_json::json!({ "kind": kind, "delta": delta, "type": type_byte, "d0": d0, "d": d, "sub_seed": g.next(),
+            "seg_first": g.below(4), "seg_copy": g.below(4), "seg_draw": g.next() }),
     }
 }
 
@@ -132,6 +135,44 @@ async fn present(wire: &[u8], tag: &[u8], log: &Arc<Mutex<TargetLog>>) -> bool {
     hit
 }
 
+/// Same, with the bytes delivered in pieces (the receiver goes quiet for 40 simulated ms between them).
+async fn present_cut(wire: &[u8], cuts: &[usize], tag: &[u8], log: &Arc<Mutex<TargetLog>>) -> bool {
+    let Ok(mut s) = TcpStream::connect(server_addr()).await else { return false };
+    s.set_own_styles(0, 0);
+    s.set_peer_read_style(0);
+    let mut from = 0;
+    for &c in cuts.iter().chain(std::iter::once(&wire.len())) {
+        if c > from && c <= wire.len() {
+            let _ = s.write_all(&wire[from..c]).await;
+            tokio::time::sleep(Duration::from_millis(40)).await;
+            from = c;
+        }
+    }
+    tokio::time::sleep(Duration::from_millis(300)).await;
+    let hit = log.lock().unwrap().conns.iter().any(|c| c.windows(tag.len()).any(|w| w == tag));
+    drop(s);
+    hit
+}
+
+/// cut points for a Shadowsocks 2022 request of `len` bytes whose salt + identity headers + fixed-length header end at `fixed_end`
+fn seg_cuts(style: u64, draw: u64, fixed_end: usize, len: usize) -> Vec<usize> {
+    if len <= fixed_end + 1 {
+        return vec![];
+    }
+    let span = (len - fixed_end - 1) as u64;
+    match style {
+        0 => vec![],
+        1 => vec![fixed_end],
+        2 => vec![fixed_end + 1 + (draw % span) as usize],
+        _ => {
+            let mut v = vec![fixed_end, fixed_end + 1 + (draw % span) as usize, fixed_end + 1 + ((draw >> 20) % span) as usize];
+            v.sort();
+            v.dedup();
+            v
+        }
+    }
+}
+
 pub fn execute_c10(plan: &Plan) -> Outcome {
     let kind = plan.extra["kind"].as_str().unwrap_or("ts").to_owned();
     let delta = plan.extra["delta"].as_i64().unwrap_or(0);
@@ -179,15 +220,19 @@ pub fn execute_c10(plan: &Plan) -> Outcome {
                 let opts = ClientOpts { ts_offset: d0, ..Default::default() };
                 let tag = format!("replay-tag-{d0}-{d}").into_bytes();
                 let (_, wire) = RefClient::start(&c, &mut g, unix_now(), &addr, &tag, &opts);
-                let first = present(&wire, &tag, &log).await;
-                obs.push((format!("first presentation, client clock {d0:+} s"), true, first));
+                let fixed_end = key_len(&c.cipher) + 16 * c.client_keys.len().saturating_sub(1) + 11 + 16;
+                let draw = plan.extra["seg_draw"].as_u64().unwrap_or(0);
+                let cuts_first = seg_cuts(plan.extra["seg_first"].as_u64().unwrap_or(0), draw, fixed_end, wire.len());
+                let cuts_copy = seg_cuts(plan.extra["seg_copy"].as_u64().unwrap_or(0), draw >> 7, fixed_end, wire.len());
+                let first = present_cut(&wire, &cuts_first, &tag, &log).await;
+                obs.push((format!("first presentation, client clock {d0:+} s, cut at {cuts_first:?} of {}", wire.len()), true, first));
                 // the same bytes again, right away and after the clock has advanced
                 log.lock().unwrap().conns.clear();
-                let again = present(&wire, &tag, &log).await;
-                obs.push((format!("identical copy {:.1} s later (client clock {d0:+} s)", 0.3), false, again));
+                let again = present_cut(&wire, &cuts_copy, &tag, &log).await;
+                obs.push((format!("identical copy {:.1} s later (client clock {d0:+} s), first cut at {cuts_first:?}, copy cut at {cuts_copy:?}", 0.3), false, again));
                 tokio::time::sleep(Duration::from_secs(d)).await;
                 log.lock().unwrap().conns.clear();
-                let later = present(&wire, &tag, &log).await;
+                let later = present_cut(&wire, &cuts_copy, &tag, &log).await;
                 obs.push((format!("identical copy {d} s later (client clock {d0:+} s, timestamp now {:+} s off)", d0 - d as i64), false, later));
                 let tag2 = b"replay-control-tag";
                 let (_, wire2) = RefClient::start(&c, &mut g, unix_now(), &addr, tag2, &ClientOpts::default());
